@@ -16,7 +16,7 @@ namespace rt {
 Global G;
 __thread SimThread *tl_self;
 __thread int tl_in_rt;
-const char *const fault_names[F_NKINDS] = {"preempt", "cas_weak_spurious", "spurious_cv_wake", "spurious_futex_wake", "stall", "clock_advance"};
+const char *const fault_names[F_NKINDS] = {"preempt", "cas_weak_spurious", "spurious_cv_wake", "spurious_futex_wake", "stall", "clock_advance", "starve"};
 
 // ------------------------------------------------------------------ prng
 static inline u64 rotl(u64 x, int k) { return (x << k) | (x >> (64 - k)); }
@@ -122,7 +122,7 @@ static void emit_trace_tail() {
     }
     oprintf("]");
 }
-static const char *bk_name(int k) { static const char *n[] = {"none", "mutex", "condvar", "futex", "join", "sleep", "cell", "guard"}; return n[k]; }
+static const char *bk_name(int k) { static const char *n[] = {"none", "mutex", "condvar", "futex", "join", "sleep", "cell", "guard", "starved"}; return n[k]; }
 static void emit_threads() {
     oprintf(",\"threads_state\":[");
     static char sb[2048];
@@ -201,6 +201,7 @@ static bool can_run(SimThread *t) {
     case B_JOIN: return G.th[t->bval].st == T_FINISHED;
     case B_SLEEP: return G.now >= t->deadline;
     case B_CELL: return G.cells[t->bobj] >= t->bval;
+    case B_STARVE: return G.fair || (long)G.steps >= t->deadline;     // descheduled until everybody else is blocked (pick() releases it), for at most a bounded number of steps
     default: return false;
     }
 }
@@ -221,6 +222,9 @@ static SimThread *pick(SimThread *self) {
         n = 0;
         for (int i = 0; i < G.nth; i++) if (can_run(&G.th[i])) run[n++] = &G.th[i];
         if (n) break;
+        bool starved = false;
+        for (int i = 0; i < G.nth; i++) if (G.th[i].st == T_BLOCKED && G.th[i].bk == B_STARVE) { G.th[i].deadline = 0; starved = true; }
+        if (starved) continue;          // nobody else can run: the starved threads are released before virtual time moves or a deadlock is declared
         long best = -1;
         for (int i = 0; i < G.nth; i++) { SimThread &t = G.th[i]; if (t.st == T_BLOCKED && (t.bk == B_SLEEP || ((t.bk == B_CV || t.bk == B_FUTEX) && t.timed))) if (best < 0 || t.deadline < best) best = t.deadline; }
         if (best < 0) { deadlock(self); }
@@ -289,6 +293,10 @@ void sched_point(SimThread *t, int kind) {
         if (coin(F_CLOCK_ADV, 0.01)) { long d = 1000 + (long)(decide_pick(64)) * 997003; G.now += d; }
         if (coin(F_STALL, 0.005)) { long d = 1000 + (long)(decide_pick(64)) * 1499977; block(t, B_SLEEP, 0, 0, true, G.now + d); return; }
     }
+    // starvation: the running thread loses the processor until every other thread is blocked or finished (bounded by a step count);
+    // virtual time does not move. Opens windows that lie behind spin-then-block waits (a notifier stopped between its wake-up call
+    // and the store the waiter is waiting for, while the waiter spins, yields and finally blocks again).
+    if (G.nth > 1 && kind != SP_USER && coin(F_STARVE, G.starve_p)) { block(t, B_STARVE, 0, 0, false, (long)G.steps + 2500); return; }
     SimThread *next = pick(t);
     run_thread(t, next);
 }
@@ -296,7 +304,7 @@ void sched_point(SimThread *t, int kind) {
 void block(SimThread *t, BKind k, uintptr_t obj, long val, bool timed, long deadline) {
     G.steps++;
     check_caps(t);
-    if (k != B_CELL) t->blocks++;
+    if (k != B_CELL && k != B_STARVE) t->blocks++;
     t->st = T_BLOCKED; t->bk = k; t->bobj = obj; t->bval = val; t->timed = timed; t->deadline = deadline;
     SimThread *next = pick(t);
     run_thread(t, next);
@@ -406,6 +414,7 @@ void run_setup(u64 seed) {
         else if (s < 8) { G.strategy = S_PCT; G.pct_depth = 1 + rnd_below(G.rng_dec, 3); static const u32 hz[] = {40, 120, 400, 1500}; u32 h = hz[rnd_below(G.rng_dec, 4)]; for (int k = 0; k < 4; k++) G.pct_points[k] = 1 + rnd_below(G.rng_dec, h); G.prio_low = 900; }
         else { G.strategy = S_RR; G.rr_quantum = 1 + rnd_below(G.rng_dec, 12); }
         G.plain_points = rnd_below(G.rng_dec, 4) == 0;
+        { static const double sp[] = {0, 0, 0, 0.0015, 0.004, 0.01}; G.starve_p = sp[rnd_below(G.rng_dec, 6)]; }
     }
     hb_reset(); heap_reset(); sync_reset();
 }
